@@ -221,6 +221,33 @@ def write_request_and_command(mtu: int, n: int, h: int, p1: int, op: int) -> boo
         return _ok(dev, b, 0x12)
 
 
+@harness(pre=['0 <= n <= 4 and 0 <= v0 <= 4 and 0 <= v1 <= 1 and 0 <= kind <= 1'], family='write', twin=True, grids=_g(op=[0x12, 0x52]),
+         kernels=K + ('bumble.gatt_server.Server.on_att_write_request', 'bumble.gatt_server.Server.on_att_write_command', 'bumble.gatt_server.Server.write_cccd', 'bumble.gatt_server.Server.read_cccd'), timeout=(90, 240),
+         bounds='Write Request / Write Command to the Client Characteristic Configuration descriptor the server generates for a notifying or indicating characteristic: value length 0..4 (well-formed is 2), first byte 0..3 or 0xFF, second byte 0 or 1 (the server formats the value into a log line, which would realise free bytes one by one): a request gets exactly one reply (Write Response or an Error Response naming it), a command none; a Read Request of the descriptor afterwards is answered with a two-byte value')
+def cccd_write_answered(mtu: int, n: int, v0: int, v1: int, kind: int, op: int) -> bool:
+    kind, n, v0, v1 = C(kind, 0, 1), C(n, 0, 4), C(v0, 0, 4), C(v1, 0, 1)
+    v0 = 0xFF if v0 == 4 else v0
+    with detloop.running() as loop:
+        with untraced():
+            props = READ | (gatt.Characteristic.Properties.NOTIFY if kind == 0 else gatt.Characteristic.Properties.INDICATE)
+            ch = gatt.Characteristic(U(0x2A19), props, P.READABLE, b'\x64')
+            dev, server = make_server([ch])
+            cccd = server.attributes[-1]
+        if cccd.type != gatt.GATT_CLIENT_CHARACTERISTIC_CONFIGURATION_DESCRIPTOR:
+            return False
+        b = StubBearer(mtu)
+        feed(server, b, _B(op) + struct.pack('<H', cccd.handle) + bytes([v0, v1, 0, 0][:n]), loop)
+        if op == 0x52:
+            if pdus(dev) != []:
+                return False
+        elif not _ok(dev, b, 0x12):
+            return False
+        dev.sent.clear()
+        feed(server, b, _B(0x0A) + struct.pack('<H', cccd.handle), loop)
+        out = pdus(dev)
+        return len(out) == 1 and out[0][0] == 0x0B and len(out[0]) == 3
+
+
 @harness(pre=['0 <= client_mtu <= 0xFFFF and 23 <= smax <= 517'], family='mtu', grids=_g(), timeout=(60, 240), kernels=K + ('bumble.gatt_server.Server.on_att_exchange_mtu_request',),
          bounds='Exchange MTU: client MTU 16 bit, server max 23..517: one response, bearer MTU = min(server max, client) when client >= 23, later responses fit it')
 def exchange_mtu_request(client_mtu: int, mtu: int, smax: int) -> bool:
